@@ -584,6 +584,70 @@ def run_sp(case):
 
 
 
+# ------------------------------------------------------------------------------------------- arguments that are views of one collection
+@st.composite
+def views_case(draw, tier="quick"):
+    d = draw(st.sampled_from([2, 2, 3]))
+    n = draw(st.integers(3, 7))
+    return {"d": d, "pts": [draw(C.hpoint(d, 9)) for _ in range(n)], "what": draw(st.sampled_from(["polyline", "polyline", "triples", "dual", "strided", "reversed"])), "as_float": draw(st.booleans())}
+
+
+def run_views(case):
+    """the arguments of one call are overlapping views of a single collection (the edges of a polyline: join(pts[:-1], pts[1:]); the planes through
+    consecutive triples; the corners meet(edges[:-1], edges[1:])): different elements that share memory - the result is that of independent copies"""
+    d, what = case["d"], case["what"]
+    n = d + 1
+    V = [[int(x) for x in p] for p in case["pts"]]
+    if any(len(p) != n for p in V) or len(V) < 3:
+        raise Skip("malformed")
+    arr = np.array(V, dtype=float if case["as_float"] else np.int64)
+    dual = what == "dual"
+    coll = (LineCollection if n == 3 else PlaneCollection)(arr) if dual else PointCollection(arr)
+    k = 3 if (what == "triples" and d == 3) else 2
+    if what == "strided":
+        views = [coll[0:-1:2], coll[1::2]]
+        idx = [list(range(0, len(V) - 1, 2)), list(range(1, len(V), 2))]
+    elif what == "reversed":
+        views = [coll[::-1][:-1], coll[1:]]
+        idx = [list(range(len(V) - 1, 0, -1)), list(range(1, len(V)))]
+    else:
+        views = [coll[i:len(V) - (k - 1) + i] for i in range(k)]
+        idx = [list(range(i, len(V) - (k - 1) + i)) for i in range(k)]
+    m = min(len(x) for x in idx)
+    idx = [x[:m] for x in idx]
+    views = [v[:m] for v in views]
+    if m < 1:
+        raise Skip("too short")
+    kind = {(2, 2, False): "join_pp2", (2, 2, True): "meet_ll2", (3, 2, False): "join_pp3", (3, 3, False): "join_ppp3", (3, 2, True): "meet_ee3"}.get((d, k, dual))
+    if kind is None:
+        raise Skip("no such operation")
+    exact = []
+    for j in range(m):
+        args = args_exact(kind, [[Fraction(x) for x in V[idx[a][j]]] for a in range(k)], [Fraction(1), Fraction(1)])
+        r = exact_result(kind, args, n)
+        if r is None:
+            raise Skip("consecutive elements not in general position")
+        exact.append(r)
+    site = f"views:{kind}:{what}"
+    res, f = call(site, (meet if dual else join), *views)
+    if f:
+        return [f]
+    ck = Checker()
+    got_all = np.asarray(res.array)
+    if not ck.check(got_all.shape[0] == m, site + ":shape", got_all.shape):
+        return ck.result()
+    for j, r in enumerate(exact):
+        tgt = r[1] if r[0] in "PH" else [x for row in dual_plucker(r[1], r[2]) for x in row]
+        got = np.asarray(got_all[j], float).ravel()
+        t = max(range(len(tgt)), key=lambda q: abs(tgt[q]))
+        ok = got.shape == (len(tgt),) and got[t] != 0 and all(Fraction(float(got[q])) * tgt[t] == tgt[q] * Fraction(float(got[t])) for q in range(len(tgt)))
+        if not ck.check(ok, site + ":position-value", (j, got.tolist(), [float(x) for x in tgt])):
+            break
+    ck.check(np.array_equal(np.asarray(coll.array), arr), site + ":collection-unchanged")
+    return ck.result()
+
+
+
 # ------------------------------------------------------------------------------------------- integer types, full range
 INT_RANGES = {"int8": (-128, 127), "uint8": (0, 255), "int16": (-32768, 32767), "uint16": (0, 65535), "int32": (-2**31, 2**31 - 1), "uint32": (0, 2**32 - 1), "int64": (-2**40, 2**40)}
 
@@ -770,6 +834,9 @@ LAWS = [
         "parallel lines / planes, a plane and a parallel line, three planes with a common direction, the line at infinity of parallel planes cut with a plane, joins of directions, the plane at infinity as an argument: exact result in every argument order", shard=300),
     Law("single_precision", lambda tier: sp_case(tier), run_sp, lambda c: True, lambda c: [c["kind"], "complex64" if c["cplx"] else "float32"] + (["one-double-argument"] if c["mixed"] else []) + (["collection"] if len(c["elems"]) > 1 else []),
         {"quick": 600, "thorough": 10000}, "all arguments in float32 / complex64 (small integer coordinates): exact span / intersection, incidence", shard=300, mandatory=("complex64", "float32")),
+    Law("arguments_are_views_of_one_collection", lambda tier: views_case(tier), run_views, lambda c: True, lambda c: [f"d{c['d']}", c["what"]], {"quick": 1200, "thorough": 20000},
+        "join / meet whose arguments are overlapping views of one collection (edges of a polyline, planes through consecutive triples, corners of consecutive edges, strided and reversed views): exactly the span / intersection at every position", shard=300,
+        mandatory=("polyline", "triples", "dual")),
     Law("integer_types_full_range", lambda tier: it_case(tier), run_it, lambda c: max(abs(x) for el in c["elems"] for v in el for x in v) > 181,
         lambda c: [c["kind"], c["dt"]] + (["collection"] if len(c["elems"]) > 1 else []) + ([f"first-argument-{c['mixed']}"] if c.get("mixed") else [])
         + ([f"{c['dt']}:products-beyond-the-type"] if max(abs(x) for el in c["elems"] for v in el for x in v) ** 2 > INT_RANGES[c["dt"]][1] else []),
